@@ -279,9 +279,11 @@ def collect_states(tier="quick", seed=0, leg="suspended", limit=None, progs=None
 # C06 purity
 # ------------------------------------------------------------------------------------------
 PURITY = {
-    "tiny": dict(stride=3, max_runs=4, deadline=20.0),
-    "quick": dict(stride=4, max_runs=6, deadline=36.0),
-    "thorough": dict(stride=1, max_runs=12, deadline=430.0),
+    # programs: how many programs of the (shuffled) tier corpus are twin-run; max_runs: branch
+    # vectors per program; gc_every: full retention check (gc.collect + weakrefs) every n-th twin
+    "tiny": dict(programs=36, max_runs=4, gc_every=8, deadline=20.0),
+    "quick": dict(programs=110, max_runs=6, gc_every=8, deadline=36.0),
+    "thorough": dict(programs=2400, max_runs=12, gc_every=1, deadline=430.0),
 }
 
 
@@ -341,9 +343,23 @@ def leg_purity(tier="quick", seed=0):
     cfg = PURITY[tier]
     col = core.Collector("purity")
     rng = random.Random(seed * 9176 + 11)
-    progs = compile_corpus(tier, seed)
-    progs = [p for i, p in enumerate(progs) if (i + seed) % cfg["stride"] == 0]
-    rng.shuffle(progs)
+    descs = corpus(tier, seed)
+    random.Random(seed * 13 + 7).shuffle(descs)
+    progs = []
+    seen = set()
+    for i, d in enumerate(descs):
+        if len(progs) >= cfg["programs"]:
+            break
+        pr = Program(d, "%s_%d" % (d.get("family", "p"), i))
+        if (pr.variant, pr.src) in seen:
+            continue
+        seen.add((pr.variant, pr.src))
+        progs.append(pr)
+    del descs
+    # keep full collections cheap: everything allocated so far is not the target's
+    gc.collect()
+    if hasattr(gc, "freeze"):
+        gc.freeze()
     truncated = False
     stop_codes = _snap_codes()
     state = {}
@@ -465,7 +481,7 @@ def leg_purity(tier="quick", seed=0):
                             R1.foi = []
                             R1 = None
                             state["kept"] = None
-                            if (col.counts.get("twin_runs", 0) % 8) == 0 or tier == "thorough":
+                            if (col.counts.get("twin_runs", 0) % cfg["gc_every"]) == 0:
                                 gc.collect()
                                 col.evaluations += 1
                                 col.count("retention_checks")
@@ -480,6 +496,8 @@ def leg_purity(tier="quick", seed=0):
                             del refs
     finally:
         ll.set_trickery_enabled(None)
+        if hasattr(gc, "unfreeze"):
+            gc.unfreeze()
     return col.result(wall=round(time.time() - t0, 2), cpu=round(time.process_time() - c0, 2),
                       truncated=truncated, tier=tier, seed=seed)
 
